@@ -465,5 +465,377 @@ theorem parseBlob_displayBlob : ∀ (bs : Bytes) (fuel : Nat), (displayBlob bs).
           utf8Len_hexUpper _ (show b.toNat % 16 < 16 by omega), parseHex2_hexUpper, ih]
         simp
 
+/-! ### intervals -/
+
+/-- a token: non-empty, no ASCII white space, no `_` -/
+def tokOk (t : Bytes) : Bool := !t.isEmpty && t.all fun b => !(isAsciiWs b || b = 95)
+
+theorem tokenize_body : ∀ (t rest cur : Bytes), (t.all fun b => !(isAsciiWs b || b = 95)) = true →
+    tokenize (t ++ rest) cur = tokenize rest (t.reverse ++ cur)
+  | [], rest, cur, _ => by simp
+  | b :: t, rest, cur, h => by
+    simp only [List.all_cons, Bool.and_eq_true] at h
+    have hb : (isAsciiWs b || decide (b = 95)) = false := by simpa using h.1
+    simp only [List.cons_append, tokenize, hb, Bool.false_eq_true, if_false]
+    rw [tokenize_body t rest (b :: cur) h.2]
+    simp
+
+theorem tokenize_joinSp : ∀ (toks : List Bytes), (toks.all tokOk) = true →
+    tokenize (joinSp toks) [] = toks
+  | [], _ => by simp [joinSp, tokenize]
+  | [t], h => by
+    simp only [List.all_cons, List.all_nil, Bool.and_true, tokOk, Bool.and_eq_true] at h
+    have := tokenize_body t [] [] h.2
+    simp only [List.append_nil] at this
+    simp only [joinSp, this, tokenize]
+    have hne : t.reverse.isEmpty = false := by
+      cases t with
+      | nil => simp at h
+      | cons => simp
+    simp [hne]
+  | t :: t2 :: ts, h => by
+    have h' := h
+    simp only [List.all_cons, Bool.and_eq_true] at h
+    have ht := h.1
+    simp only [tokOk, Bool.and_eq_true] at ht
+    have ih := tokenize_joinSp (t2 :: ts) (by simp only [List.all_cons, Bool.and_eq_true]; exact h.2)
+    simp only [joinSp]
+    rw [tokenize_body t _ [] ht.2]
+    have hne : (t.reverse ++ []).isEmpty = false := by
+      cases t with
+      | nil => simp at ht
+      | cons => simp
+    have hsp : (isAsciiWs 32 || decide ((32 : UInt8) = 95)) = true := by decide
+    simp only [tokenize, hsp, if_true, hne, Bool.false_eq_true, if_false, ih]
+    simp
+
+theorem sep_of_isDigit {b : UInt8} (h : isDigit b = true) : (isAsciiWs b || decide (b = 95)) = false := by
+  simp only [isDigit, Bool.and_eq_true, decide_eq_true_eq] at h
+  simp only [isAsciiWs, Bool.or_eq_false_iff, decide_eq_false_iff_not]
+  refine ⟨⟨⟨⟨⟨?_, ?_⟩, ?_⟩, ?_⟩, ?_⟩, ?_⟩ <;> (intro hb; subst hb; simp at h)
+
+theorem tokOk_intDigits (v : Int) : tokOk (intDigits v) = true := by
+  have hA := allDigits_natDigits v.natAbs
+  have hL := length_natDigits_pos v.natAbs
+  have hall : ((natDigits v.natAbs).all fun b => !(isAsciiWs b || decide (b = 95))) = true := by
+    rw [List.all_eq_true]
+    intro b hb
+    simp only [allDigits, List.all_eq_true] at hA
+    rw [sep_of_isDigit (hA b hb)]; rfl
+  unfold intDigits tokOk
+  split
+  · simp only [List.isEmpty_cons, Bool.not_false, Bool.true_and, List.all_cons, Bool.and_eq_true]
+    exact ⟨by decide, hall⟩
+  · have : (natDigits v.natAbs).isEmpty = false := by
+      cases h : natDigits v.natAbs with
+      | nil => rw [h] at hL; simp at hL
+      | cons => rfl
+    rw [this]
+    simp only [Bool.not_false, Bool.true_and]
+    exact hall
+
+/-- the (at most two) tokens of one field -/
+def fieldToks (v : Int) (u : Bytes) : List Bytes :=
+  if v = 0 then [] else [intDigits v, if v = 1 ∨ v = -1 then u else u ++ [115]]
+
+theorem intervalTokens_cons (v : Int) (vs : List Int) (u : Bytes) (us : List Bytes) :
+    intervalTokens (v :: vs) (u :: us) = fieldToks v u ++ intervalTokens vs us := rfl
+
+def unitAt (i : Nat) : Bytes := unitNames.getD i []
+
+theorem unitIndex_unitAt (i : Nat) (h : i < 6) :
+    unitIndex (unitAt i) = some i ∧ unitIndex (unitAt i ++ [115]) = some i ∧
+    tokOk (unitAt i) = true ∧ tokOk (unitAt i ++ [115]) = true := by
+  have : i = 0 ∨ i = 1 ∨ i = 2 ∨ i = 3 ∨ i = 4 ∨ i = 5 := by omega
+  rcases this with h | h | h | h | h | h <;> subst h <;> decide
+
+theorem inI32_iff (v : Int) : inI32 v = true ↔ (i32Lo ≤ v ∧ v ≤ i32Hi) := by
+  simp [inI32]
+
+theorem loop_field (i : Nat) (hi : i < 6) (v : Int) (hv : inI32 v = true) (fs : List Int)
+    (hz : v = 0 → fs.set i v = fs) (rest : List Bytes) :
+    intervalLoop (fieldToks v (unitAt i) ++ rest) fs none = intervalLoop rest (fs.set i v) none := by
+  unfold fieldToks
+  by_cases h0 : v = 0
+  · simp only [h0, if_true, List.nil_append]
+    rw [← h0, hz h0]
+  · simp only [h0, if_false, List.cons_append, List.nil_append]
+    have hu := unitIndex_unitAt i hi
+    rw [intervalLoop, parseIntRange_intDigits i32Lo i32Hi v ((inI32_iff v).mp hv)]
+    simp only
+    rw [intervalLoop]
+    have hui : unitIndex (if v = 1 ∨ v = -1 then unitAt i else unitAt i ++ [115]) = some i := by
+      split
+      · exact hu.1
+      · exact hu.2.1
+    rw [hui]
+
+theorem tokOk_fieldToks (i : Nat) (hi : i < 6) (v : Int) : (fieldToks v (unitAt i)).all tokOk = true := by
+  have hu := unitIndex_unitAt i hi
+  unfold fieldToks
+  split
+  · rfl
+  · simp only [List.all_cons, List.all_nil, Bool.and_true, Bool.and_eq_true]
+    refine ⟨tokOk_intDigits v, ?_⟩
+    split
+    · exact hu.2.2.1
+    · exact hu.2.2.2
+
+theorem tdm (a b : Int) (hb : 0 < b) :
+    a.tdiv b * b + a.tmod b = a ∧
+    (0 ≤ a → 0 ≤ a.tmod b ∧ a.tmod b < b ∧ 0 ≤ a.tdiv b) ∧
+    (a ≤ 0 → -b < a.tmod b ∧ a.tmod b ≤ 0 ∧ a.tdiv b ≤ 0) := by
+  refine ⟨Int.tdiv_mul_add_tmod a b, ?_, ?_⟩
+  · intro ha
+    exact ⟨Int.tmod_nonneg b ha, Int.tmod_lt_of_pos a hb, Int.tdiv_nonneg ha (Int.le_of_lt hb)⟩
+  · intro ha
+    have hna : 0 ≤ -a := by omega
+    have h1 := Int.tmod_nonneg b hna
+    have h2 := Int.tmod_lt_of_pos (-a) hb
+    have h3 := Int.tdiv_nonneg hna (Int.le_of_lt hb)
+    rw [Int.neg_tmod] at h1 h2
+    rw [Int.neg_tdiv] at h3
+    omega
+
+theorem intervalTokens6 (a b c d e f : Int) :
+    intervalTokens [a, b, c, d, e, f] unitNames =
+      fieldToks a (unitAt 0) ++ (fieldToks b (unitAt 1) ++ (fieldToks c (unitAt 2) ++
+        (fieldToks d (unitAt 3) ++ (fieldToks e (unitAt 4) ++ (fieldToks f (unitAt 5) ++ []))))) := rfl
+
+theorem allTokOk_fields (a b c d e f : Int) :
+    (intervalTokens [a, b, c, d, e, f] unitNames).all tokOk = true := by
+  rw [intervalTokens6]
+  simp only [List.all_append, List.all_nil, Bool.and_true,
+    tokOk_fieldToks 0 (by decide), tokOk_fieldToks 1 (by decide), tokOk_fieldToks 2 (by decide),
+    tokOk_fieldToks 3 (by decide), tokOk_fieldToks 4 (by decide), tokOk_fieldToks 5 (by decide),
+    Bool.and_self]
+
+theorem loop_fields (a b c d e f : Int) (ha : inI32 a = true) (hb : inI32 b = true)
+    (hc : inI32 c = true) (hd : inI32 d = true) (he : inI32 e = true) (hf : inI32 f = true) :
+    intervalLoop (intervalTokens [a, b, c, d, e, f] unitNames) [0, 0, 0, 0, 0, 0] none =
+      .ok [a, b, c, d, e, f] := by
+  rw [intervalTokens6]
+  rw [loop_field 0 (by decide) a ha _ (by intro h; subst h; rfl),
+    loop_field 1 (by decide) b hb _ (by intro h; subst h; rfl),
+    loop_field 2 (by decide) c hc _ (by intro h; subst h; rfl),
+    loop_field 3 (by decide) d hd _ (by intro h; subst h; rfl),
+    loop_field 4 (by decide) e he _ (by intro h; subst h; rfl),
+    loop_field 5 (by decide) f hf _ (by intro h; subst h; rfl)]
+  rfl
+
+/-- intervals with a whole number of seconds survive Display + FromStr -/
+theorem parseInterval_displayInterval (m d ms : Int) (hm : inI32 m = true) (hd : inI32 d = true)
+    (hms : inI32 ms = true) (hsec : ms % 1000 = 0) :
+    parseInterval (displayInterval m d ms) = .ok (m, d, ms) := by
+  rw [inI32_iff] at hm hd hms
+  simp only [i32Lo, i32Hi] at hm hd hms
+  obtain ⟨m1, m2, m3⟩ := tdm m 12 (by decide)
+  obtain ⟨s1, s2, s3⟩ := tdm ms 1000 (by decide)
+  obtain ⟨t1, t2, t3⟩ := tdm (ms.tdiv 1000) 60 (by decide)
+  obtain ⟨u1, u2, u3⟩ := tdm ((ms.tdiv 1000).tdiv 60) 60 (by decide)
+  unfold parseInterval displayInterval intervalFields
+  rw [tokenize_joinSp _ (allTokOk_fields _ _ _ _ _ _)]
+  generalize hy : m.tdiv 12 = y at *
+  generalize hmo : m.tmod 12 = mo at *
+  generalize hsm : ms.tmod 1000 = sm at *
+  generalize hS : ms.tdiv 1000 = S at *
+  generalize hse : S.tmod 60 = se at *
+  generalize hM : S.tdiv 60 = M at *
+  generalize hmi : M.tmod 60 = mi at *
+  generalize hh : M.tdiv 60 = h at *
+  have hsm0 : sm = 0 := by
+    rcases Int.le_total 0 ms with hp | hp
+    · have := s2 hp; omega
+    · have := s3 hp; omega
+  have bounds : (i32Lo ≤ y ∧ y ≤ i32Hi) ∧ (i32Lo ≤ mo ∧ mo ≤ i32Hi) ∧ (i32Lo ≤ h ∧ h ≤ i32Hi) ∧
+      (i32Lo ≤ mi ∧ mi ≤ i32Hi) ∧ (i32Lo ≤ se ∧ se ≤ i32Hi) ∧
+      (i32Lo ≤ h * 60 ∧ h * 60 ≤ i32Hi) ∧ (i32Lo ≤ h * 60 + mi ∧ h * 60 + mi ≤ i32Hi) ∧
+      (i32Lo ≤ (h * 60 + mi) * 60 ∧ (h * 60 + mi) * 60 ≤ i32Hi) ∧
+      (i32Lo ≤ (h * 60 + mi) * 60 + se ∧ (h * 60 + mi) * 60 + se ≤ i32Hi) ∧
+      (i32Lo ≤ y * 12 ∧ y * 12 ≤ i32Hi) := by
+    simp only [i32Lo, i32Hi]
+    rcases Int.le_total 0 ms with hp | hp <;> rcases Int.le_total 0 m with hq | hq
+    all_goals (
+      first
+        | (have a1 := s2 hp; have a2 := m2 hq
+           have a3 := t2 (by omega); have a4 := u2 (by omega); omega)
+        | (have a1 := s2 hp; have a2 := m3 hq
+           have a3 := t2 (by omega); have a4 := u2 (by omega); omega)
+        | (have a1 := s3 hp; have a2 := m2 hq
+           have a3 := t3 (by omega); have a4 := u3 (by omega); omega)
+        | (have a1 := s3 hp; have a2 := m3 hq
+           have a3 := t3 (by omega); have a4 := u3 (by omega); omega))
+  obtain ⟨b1, b2, b3, b4, b5, b6, b7, b8, b9, b10⟩ := bounds
+  rw [loop_fields y mo d h mi se ((inI32_iff _).mpr b1) ((inI32_iff _).mpr b2)
+    ((inI32_iff _).mpr (by simp only [i32Lo, i32Hi]; exact hd)) ((inI32_iff _).mpr b3)
+    ((inI32_iff _).mpr b4) ((inI32_iff _).mpr b5)]
+  have e1 : y * 12 + mo = m := by omega
+  have e2 : ((h * 60 + mi) * 60 + se) * 1000 = ms := by omega
+  have c1 := (inI32_iff _).mpr b10
+  have c2 : inI32 m = true := by rw [inI32_iff]; simp only [i32Lo, i32Hi]; exact hm
+  have c3 := (inI32_iff _).mpr b6
+  have c4 := (inI32_iff _).mpr b7
+  have c5 := (inI32_iff _).mpr b8
+  have c6 := (inI32_iff _).mpr b9
+  have c7 : inI32 ms = true := by
+    rw [inI32_iff]; simp only [i32Lo, i32Hi]; exact hms
+  simp only [c1, c2, c3, c4, c5, c6, c7, Bool.and_self, if_true, e1, e2]
+
+/-! ### timestamps -/
+
+theorem scanYmd_fmtYmd_rest (y m d : Int) (hm0 : 0 ≤ m) (hm1 : m ≤ 99) (hd0 : 0 ≤ d) (hd1 : d ≤ 99)
+    (rest : Bytes) : scanYmd (fmtYmd y m d ++ rest) = some (y, m, d, rest) := by
+  unfold scanYmd fmtYmd
+  simp only [List.append_assoc, List.cons_append, List.nil_append]
+  rw [scanYear_fmtYear]
+  simp only [Option.bind_some, expectByte, if_true]
+  rw [scan2_fmt2 m hm0 hm1]
+  simp only [Option.bind_some, expectByte, if_true]
+  rw [scan2_fmt2 d hd0 hd1]
+  rfl
+
+theorem scan2_space (s : Bytes) : scan2 (32 :: s) = scan2 s := by
+  simp [scan2, skipWs, isWs]
+
+theorem scanHms_fmtHms (sec : Int) (h0 : 0 ≤ sec) (h1 : sec < 86400) (rest : Bytes) :
+    ((scan2 (32 :: (fmtHms sec ++ rest))).bind fun h =>
+      (expectByte 58 h.2).bind fun r2 =>
+      (scan2 r2).bind fun mi =>
+      (expectByte 58 mi.2).bind fun r3 =>
+      (scan2 r3).bind fun se => some (h.1, mi.1, se.1, se.2)) =
+    some (sec / 3600, sec / 60 % 60, sec % 60, rest) := by
+  unfold fmtHms
+  rw [scan2_space]
+  simp only [List.append_assoc, List.cons_append, List.nil_append]
+  rw [scan2_fmt2 (sec / 3600) (by omega) (by omega)]
+  simp only [Option.bind_some, expectByte, if_true]
+  rw [scan2_fmt2 (sec / 60 % 60) (by omega) (by omega)]
+  simp only [Option.bind_some, expectByte, if_true]
+  rw [scan2_fmt2 (sec % 60) (by omega) (by omega)]
+  rfl
+
+theorem scanYmdHms_fmt (y m d sec : Int) (hm0 : 0 ≤ m) (hm1 : m ≤ 99) (hd0 : 0 ≤ d) (hd1 : d ≤ 99)
+    (h0 : 0 ≤ sec) (h1 : sec < 86400) (rest : Bytes) :
+    scanYmdHms (fmtYmd y m d ++ [32] ++ fmtHms sec ++ rest) =
+      some (y, m, d, sec / 3600, sec / 60 % 60, sec % 60, rest) := by
+  unfold scanYmdHms
+  rw [show fmtYmd y m d ++ [32] ++ fmtHms sec ++ rest = fmtYmd y m d ++ (32 :: (fmtHms sec ++ rest)) by simp]
+  rw [scanYmd_fmtYmd_rest y m d hm0 hm1 hd0 hd1]
+  simp only [Option.bind_some]
+  have := scanHms_fmtHms sec h0 h1 rest
+  simp only [Option.bind] at this ⊢
+  revert this
+  cases scan2 (32 :: (fmtHms sec ++ rest)) with
+  | none => simp
+  | some hh =>
+    simp only
+    cases expectByte 58 hh.2 with
+    | none => simp
+    | some r2 =>
+      simp only
+      cases scan2 r2 with
+      | none => simp
+      | some mi =>
+        simp only
+        cases expectByte 58 mi.2 with
+        | none => simp
+        | some r3 =>
+          simp only
+          cases scan2 r3 with
+          | none => simp
+          | some se =>
+            simp only
+            intro h
+            injection h with h
+            simp only [Prod.mk.injEq] at h
+            obtain ⟨a, b, c, e⟩ := h
+            rw [a, b, c, e]
+
+theorem isLeap_neg (y : Int) : isLeap (-y) = isLeap y := by
+  have h4 : ((-y) % 4 = 0) ↔ (y % 4 = 0) := by omega
+  have h100 : ((-y) % 100 = 0) ↔ (y % 100 = 0) := by omega
+  have h400 : ((-y) % 400 = 0) ↔ (y % 400 = 0) := by omega
+  simp only [isLeap, ne_eq, h4, h100, h400]
+
+theorem validYmd_neg (y m d : Int) : validYmd (-y) m d = validYmd y m d := by
+  unfold validYmd daysInMonth
+  rw [isLeap_neg]
+
+/-- whole-second timestamps whose (civil) year is ≥ −9999 survive Display + FromStr -/
+theorem parseTimestamp_displayTimestamp (us : Int) (hsec : us % 1000000 = 0)
+    (hlo : i64Lo ≤ us - thirtyYearsUs)
+    (hr : tsMsInRange (Int.tdiv (us - thirtyYearsUs) 1000) = true)
+    (hy : -9999 ≤ (civilFromDays (Int.tdiv (us - thirtyYearsUs) 1000 / 86400000)).1) :
+    ∃ t, displayTimestamp us = .ok t ∧ parseTimestamp t = some (.ok us) := by
+  -- seconds since the unix epoch
+  obtain ⟨k, hk⟩ : ∃ k : Int, us - thirtyYearsUs = 1000 * (1000 * k) := by
+    refine ⟨(us - thirtyYearsUs) / 1000000, ?_⟩
+    simp only [thirtyYearsUs]; omega
+  have hms : Int.tdiv (us - thirtyYearsUs) 1000 = 1000 * k := by
+    rw [hk, Int.mul_tdiv_cancel_left _ (by decide)]
+  rw [hms] at hr hy
+  have hday : 1000 * k / 86400000 = k / 86400 := by omega
+  have hmod : 1000 * k % 86400000 = 1000 * (k % 86400) := by omega
+  rw [hday] at hy
+  have hr' : dateInRange (k / 86400) = true := by rw [← hday]; exact hr
+  have hv := civilFromDays_valid (k / 86400)
+  have hyr := civilFromDays_year_range (k / 86400) hr'
+  have hdc := daysFromCivil_civilFromDays (k / 86400)
+  have hb := (validYmd_iff _ _ _).mp hv
+  have hdim : daysInMonth (civilFromDays (k / 86400)).1 (civilFromDays (k / 86400)).2.1 ≤ 31 := by
+    unfold daysInMonth; split <;> (try split) <;> omega
+  have hnp : ¬ (us - thirtyYearsUs < i64Lo) := by omega
+  have hsod0 : 0 ≤ k % 86400 := by omega
+  have hsod1 : k % 86400 < 86400 := by omega
+  have hsecs : 1000 * (k % 86400) / 1000 = k % 86400 := by omega
+  have hfrac : 1000 * (k % 86400) % 1000 = 0 := by omega
+  have hback : ((k / 86400) * 86400 + (k % 86400 / 3600) * 3600 + (k % 86400 / 60 % 60) * 60 + k % 86400 % 60) * 1000000
+      + thirtyYearsUs = us := by
+    have : us = 1000000 * k + thirtyYearsUs := by omega
+    rw [this]; omega
+  unfold displayTimestamp
+  simp only [hnp, if_false, hms, hr, Bool.not_true, Bool.false_eq_true, hday, hmod, hsecs, hfrac]
+  generalize hc : civilFromDays (k / 86400) = c at *
+  obtain ⟨y, m, d⟩ := c
+  simp only at hv hyr hdc hb hdim hy ⊢
+  by_cases hneg : y < 0
+  · simp only [hneg, if_true]
+    refine ⟨_, rfl, ?_⟩
+    have hfy : padZero 4 (natDigits y.natAbs) = fmtYear (-y) := by
+      unfold fmtYear
+      have : (0 : Int) ≤ -y ∧ -y ≤ 9999 := by omega
+      rw [if_pos this]
+      have : (-y).natAbs = y.natAbs := by omega
+      rw [this]
+    have htext : padZero 4 (natDigits y.natAbs) ++ [45] ++ fmt2 m ++ [45] ++ fmt2 d ++ [32] ++
+        fmtHms (k % 86400) ++ [32, 66, 67] =
+        fmtYmd (-y) m d ++ [32] ++ fmtHms (k % 86400) ++ [32, 66, 67] := by
+      rw [hfy]; rfl
+    rw [htext]
+    unfold parseTimestamp
+    rw [scanYmdHms_fmt (-y) m d (k % 86400) (by omega) (by omega) (by omega) (by omega) hsod0 hsod1]
+    have hvn : validYmd (-y) m d = true := by rw [validYmd_neg]; exact hv
+    have c1 : chronoMinYear ≤ -y ∧ -y ≤ chronoMaxYear ∧ validYmd (-y) m d = true ∧
+        k % 86400 / 3600 ≤ 23 ∧ k % 86400 / 60 % 60 ≤ 59 ∧ k % 86400 % 60 ≤ 60 := by
+      simp only [chronoMinYear, chronoMaxYear] at hyr ⊢
+      refine ⟨by omega, by omega, hvn, by omega, by omega, by omega⟩
+    have c2 : ¬ (k % 86400 % 60 = 60) := by omega
+    have c3 : chronoMinYear ≤ - -y ∧ validYmd (- -y) m d = true := by
+      rw [Int.neg_neg]; exact ⟨hyr.1, hv⟩
+    simp only [c1, not_true_eq_false, if_false, c2, c3, and_self]
+    have hne : ¬ ([32, 66, 67] : Bytes) = [] := by decide
+    simp only [hne, if_false, if_true, Int.neg_neg, timestampOfCivil, hdc, hback]
+  · simp only [hneg, if_false]
+    refine ⟨_, rfl, ?_⟩
+    have hf0 : fmtFrac 0 = [] := rfl
+    rw [hf0]
+    unfold parseTimestamp
+    rw [scanYmdHms_fmt y m d (k % 86400) (by omega) (by omega) (by omega) (by omega) hsod0 hsod1]
+    have c1 : chronoMinYear ≤ y ∧ y ≤ chronoMaxYear ∧ validYmd y m d = true ∧
+        k % 86400 / 3600 ≤ 23 ∧ k % 86400 / 60 % 60 ≤ 59 ∧ k % 86400 % 60 ≤ 60 :=
+      ⟨hyr.1, hyr.2, hv, by omega, by omega, by omega⟩
+    have c2 : ¬ (k % 86400 % 60 = 60) := by omega
+    simp only [c1, and_self, not_true_eq_false, if_false, if_true, c2, timestampOfCivil, hdc, hback]
+
 end V19
 end RlModel
